@@ -420,3 +420,32 @@ TRUSTED_COMMON = [
     "extraction: ExtrOcamlBasic directives only (bool, option, unit, list, prod, sumbool, sumor; andb/orb inlined), no Extract Constant/Inductive of our own; OCaml 4.13.1; ocaml/driver.ml (int <-> Z conversion, line I/O)",
     "correspondence harness harness/*.cpp compiled with g++ 12 from /repo's working tree; lib/pv.py and checks/*.py (generators, canonicalisation, diff)",
 ]
+
+
+# ----------------------------------------------------------------------------
+# shrinking
+# ----------------------------------------------------------------------------
+def ddmin(parts, fails_batch, join, max_rounds=400):
+    """delta debugging over a list of parts: fails_batch(list of candidate texts) -> list of bools (same failure persists).
+    Removes chunks of halving size, then single parts; every granularity is evaluated as ONE batch."""
+    cur = list(parts)
+    n = 2
+    rounds = 0
+    while len(cur) >= 2 and rounds < max_rounds:
+        rounds += 1
+        size = max(1, len(cur) // n)
+        chunks = [(i, min(len(cur), i + size)) for i in range(0, len(cur), size)]
+        cands = [cur[:a] + cur[b:] for a, b in chunks]
+        cands = [c for c in cands if c]
+        if not cands:
+            break
+        res = fails_batch([join(c) for c in cands])
+        hit = next((c for c, r in zip(cands, res) if r), None)
+        if hit is not None:
+            cur = hit
+            n = max(2, n - 1)
+        elif size == 1:
+            break
+        else:
+            n = min(len(cur), n * 2)
+    return cur
